@@ -1,4 +1,5 @@
 import LocustModel.Codec.Strings
+import LocustModel.Lemmas.C01Ops
 /-
   Helper lemmas for the string part of C01 (core only).
 -/
@@ -59,6 +60,9 @@ theorem map_toBytes_ofBytes (ss : List Bytes) : (ss.map ofBytes).map toBytes = s
   induction ss with
   | nil => rfl
   | cons a t ih => simp [toBytes_ofBytes, ih]
+
+theorem map_toBytes_comp_ofBytes (ss : List Bytes) : ss.map (toBytes ∘ ofBytes) = ss := by
+  rw [← List.map_map]; exact map_toBytes_ofBytes ss
 
 /-! ### `IndexedPackedStrings` -/
 
@@ -283,7 +287,7 @@ theorem fastBuild_decode (dec : Section → Section) (strings : List Bytes) (lhe
       cases present <;>
         simp [packedColumn, decode, runOps, step, ofSection, unpackAll_packAll, hun]
     · cases present <;>
-        simp [packedColumn, decode, runOps, step, ofSection, stringPackCodec, unpackAll_packAll, map_toBytes_ofBytes]
+        simp [packedColumn, decode, runOps, step, ofSection, stringPackCodec, unpackAll_packAll, map_toBytes_comp_ofBytes]
   · -- dictionary
     have hmem : ∀ s ∈ strings, s ∈ sortedUniq strings := fun s hs => (mem_sortedUniq s strings).mpr hs
     have hml : ∀ s ∈ sortedUniq strings, s.length < 2 ^ 24 :=
@@ -293,5 +297,84 @@ theorem fastBuild_decode (dec : Section → Section) (strings : List Bytes) (lhe
     simp only [List.nil_append, List.length_nil] at hp
     cases present <;>
       simp [decode, runOps, step, ofSection, dictCodec, hp, hd]
+
+theorem fastBuild_noPush0 (strings : List Bytes) (len : Nat) (lhex uhex : Bool) (total : Nat)
+    (present : Option (List Nat)) : NoPush0 (fastBuild strings len lhex uhex total present).ops := by
+  unfold fastBuild
+  split
+  · split <;> cases present <;> simp [NoPush0, packedColumn, stringPackCodec]
+  · cases present <;> simp [NoPush0, dictCodec]
+
+theorem fastBuild_len (strings : List Bytes) (len : Nat) (lhex uhex : Bool) (total : Nat)
+    (present : Option (List Nat)) : (fastBuild strings len lhex uhex total present).len = len := by
+  unfold fastBuild
+  split
+  · split <;> cases present <;> simp [packedColumn]
+  · cases present <;> simp
+
+/-! ### `StringColBuffer` -/
+
+theorem entriesFrom_length (off : Nat) (ss : List Bytes) : (entriesFrom off ss).length = ss.length := by
+  induction ss generalizing off with
+  | nil => rfl
+  | cons s r ih => simp [entriesFrom, ih]
+
+theorem sumLen_append (a b : List Bytes) : sumLen (a ++ b) = sumLen a + sumLen b := by
+  simp [sumLen]
+
+theorem StrBuf.pushAll_spec (b : StrBuf) (ss : List Bytes) :
+    (b.pushAll ss).values = ss.foldl IPS.push b.values ∧
+    (b.pushAll ss).lhex = (b.lhex && ss.all isLowercaseHex) ∧
+    (b.pushAll ss).uhex = (b.uhex && ss.all isUppercaseHex) ∧
+    (b.pushAll ss).stringBytes = b.stringBytes + sumLen ss := by
+  induction ss generalizing b with
+  | nil => simp [StrBuf.pushAll, sumLen]
+  | cons s r ih =>
+    obtain ⟨h1, h2, h3, h4⟩ := ih (b.push s)
+    simp only [StrBuf.pushAll, List.foldl_cons] at h1 h2 h3 h4 ⊢
+    refine ⟨by rw [h1]; rfl, ?_, ?_, ?_⟩
+    · rw [h2]; simp [StrBuf.push, Bool.and_assoc]
+    · rw [h3]; simp [StrBuf.push, Bool.and_assoc]
+    · rw [h4]; simp [StrBuf.push, sumLen]; omega
+
+theorem StrBuf.pushAll_append (b : StrBuf) (a c : List Bytes) :
+    (b.pushAll a).pushAll c = b.pushAll (a ++ c) := by
+  simp [StrBuf.pushAll, List.foldl_append]
+
+/-- the strings read back from the `IndexedPackedStrings` of a buffer are the strings pushed. -/
+theorem StrBuf.iter_pushAll (ss : List Bytes) (h : ∀ s ∈ ss, s.length < 2 ^ 24) :
+    (StrBuf.pushAll {} ss).values.iter = .ok ss ∧ (StrBuf.pushAll {} ss).values.data.length = ss.length := by
+  obtain ⟨h1, _⟩ := StrBuf.pushAll_spec {} ss
+  have hp := foldl_push {} ss
+  simp only [List.nil_append, List.length_nil] at hp
+  have hv : (StrBuf.pushAll {} ss).values = { data := entriesFrom 0 ss, store := storeOf ss } := by
+    rw [h1]; exact hp
+  have := iterFrom_entries [] [] ss h
+  simp only [List.nil_append, List.append_nil, List.length_nil] at this
+  exact ⟨by rw [hv]; exact this, by rw [hv]; exact entriesFrom_length 0 ss⟩
+
+/-- `StringColBuffer::finalize` then decode: every list of strings (each < 2^24 bytes). -/
+theorem strBuf_finalize_decode (dec : Section → Section) (ss : List Bytes) (present : Option (List Nat))
+    (h : ∀ s ∈ ss, s.length < 2 ^ 24) :
+    ∃ c, (StrBuf.pushAll {} ss).finalize present = .ok c ∧ decode dec c = .ok ⟨.str ss, present⟩ ∧
+      c.len = ss.length ∧ NoPush0 c.ops := by
+  obtain ⟨hit, hlen⟩ := StrBuf.iter_pushAll ss h
+  obtain ⟨_, h2, h3, h4⟩ := StrBuf.pushAll_spec {} ss
+  have hflags : HexFlagsOk (StrBuf.pushAll {} ss).lhex (StrBuf.pushAll {} ss).uhex ss := by
+    constructor
+    · intro hl s hs
+      rw [h2] at hl
+      have : ss.all isLowercaseHex = true := by simpa using hl
+      exact List.all_eq_true.mp this s hs
+    · intro hu s hs
+      rw [h3] at hu
+      have : ss.all isUppercaseHex = true := by simpa using hu
+      exact List.all_eq_true.mp this s hs
+  have hbytes : (StrBuf.pushAll {} ss).stringBytes = sumLen ss := by rw [h4]; simp
+  refine ⟨fastBuild ss (StrBuf.pushAll {} ss).values.data.length (StrBuf.pushAll {} ss).lhex
+      (StrBuf.pushAll {} ss).uhex (StrBuf.pushAll {} ss).stringBytes present,
+    by simp only [StrBuf.finalize, hit, bind_ok, pure_eq_ok], ?_, ?_, fastBuild_noPush0 _ _ _ _ _ _⟩
+  · rw [hlen, hbytes]; exact fastBuild_decode dec ss _ _ present h hflags
+  · rw [fastBuild_len, hlen]
 
 end LM.Codec
